@@ -602,7 +602,7 @@ def _pure_expr(e):
     return False
 
 
-_PURE_QUALIFIED = {"struct.pack", "struct.calcsize", "struct.unpack", "zlib.crc32"}
+_PURE_QUALIFIED = {"struct.pack", "struct.calcsize", "struct.unpack", "zlib.crc32", "struct.Struct"}
 _PURE_METHODS = {"format", "encode", "decode", "startswith", "endswith", "get", "check"}
 
 
